@@ -547,7 +547,11 @@ def rule_r4(prog, res) -> None:
         ci = prog.find_class(cname)
         m = ci.methods["_compute_angle"]
         res.touch(m)
-        used = {c.func.attr for c in calls_in(m) if isinstance(c.func, ast.Attribute) and c.func.attr.endswith("_distance")}
+        # the distance measure that divides the scale on the returned value of every path (helpers and callbacks looked through)
+        used = set()
+        for p_ in symx.explore(prog, m, inline=symx.inline_private_helpers(prog)):
+            if p_.outcome == "return" and p_.value is not None:
+                used |= {y.func.attr for y in ast.walk(p_.value) if isinstance(y, ast.Call) and isinstance(y.func, ast.Attribute) and y.func.attr.endswith("_distance")}
         if dist is not None and used != {dist}:
             res.violation("C01.R4", m, m.node, f"{cname} converts with {sorted(used)} instead of {dist}", key_extra=f"{cname}-distance-measure")
             continue
@@ -584,6 +588,14 @@ def _fold_compute_angle(prog, fi, env: dict, members: dict):
                 return False
             if fnm in ("asarray", "float", "atleast_1d") and len(e.args) == 1:
                 return val(e.args[0])
+            if fnm == "get" and isinstance(e.func, ast.Attribute) and isinstance(e.func.value, ast.Name) and e.args:
+                # lookup in a module-level table, e.g. {Unit.arcsec: 3600.0, Unit.arcmin: 60.0}.get(self.unit)
+                from ..effects import module_const_env
+
+                table = module_const_env(prog, fi.module).get(e.func.value.id)
+                if isinstance(table, dict):
+                    table = {members.get(k, k): v for k, v in table.items()}
+                    return table.get(val(e.args[0]), val(e.args[1]) if len(e.args) > 1 else None)
             raise Unknown(fnm)
         if isinstance(e, ast.BinOp):
             a, b = val(e.left), val(e.right)
@@ -607,6 +619,10 @@ def _fold_compute_angle(prog, fi, env: dict, members: dict):
                 return a in b
             if isinstance(e.ops[0], ast.NotIn):
                 return a not in b
+            if isinstance(e.ops[0], ast.Is):
+                return a is b
+            if isinstance(e.ops[0], ast.IsNot):
+                return a is not b
             raise Unknown("cmp")
         if isinstance(e, (ast.Tuple, ast.List, ast.Set)):
             return tuple(val(x) for x in e.elts)
@@ -703,7 +719,8 @@ def rule_r5(prog, res) -> None:
             res.ok("C01.R5", res.site(worker, f"{o}[i]"), "stored on every path through the loop body")
     # side consistency: every assignment / dataclass construction keeps 1 with 1 and 2 with 2
     checked = 0
-    for f in (worker, prog.func("PatchLinkage.get_patch_pairs"), prog.func("PatchLinkage.count_pairs")):
+    # (every function of the measurement module: the bookkeeping may live in helpers or in a collector class)
+    for f in [g_ for g_ in worker.module.all_funcs]:
         res.touch(f)
         for x in walk_no_nested(f.node):
             if isinstance(x, ast.Assign) and len(x.targets) == 1:
@@ -723,7 +740,7 @@ def rule_r5(prog, res) -> None:
                 for ci in tg.classes():
                     if ci.is_dataclass:
                         fields = list(ci.class_ann)
-                        for fld, a in zip(fields, x.args):
+                        for fld, a in list(zip(fields, x.args)) + [(k_.arg, k_.value) for k_ in x.keywords if k_.arg in fields]:
                             sf, sa = _side(ast.Name(id=fld, ctx=ast.Load())), _side(a)
                             if sf and sa:
                                 checked += 1
@@ -777,17 +794,28 @@ def rule_r5(prog, res) -> None:
         if not (isinstance(A, ast.Attribute) and A.attr == "id1" and isinstance(B, ast.Attribute) and B.attr == "id2" and unparse(A.value) == unparse(B.value)):
             order_bad = (ev, [unparse(A)[-30:], unparse(B)[-30:]])
             continue
-        fac = 1.0
-        for y in ast.walk(C):
-            if isinstance(y, ast.BinOp) and isinstance(y.op, (ast.Mult, ast.Div)):
-                for side in (y.left, y.right):
-                    if isinstance(side, ast.Constant) and isinstance(side.value, (int, float)) and not isinstance(side.value, bool):
-                        fac *= side.value if isinstance(y.op, ast.Mult) else (1 / side.value if side is y.right else side.value)
+        def factor(e, env) -> float:
+            """constant factor applied to the counts (a conditional expression is decided under env)"""
+            if isinstance(e, ast.IfExp):
+                try:
+                    return factor(e.body if bool(ceval(e.test, env)) else e.orelse, env)
+                except (Unknown, TypeError):
+                    return float("nan")
+            fac_ = 1.0
+            for y in ast.walk(e):
+                if isinstance(y, ast.IfExp) and y is not e:
+                    return float("nan")
+                if isinstance(y, ast.BinOp) and isinstance(y.op, (ast.Mult, ast.Div)):
+                    for side in (y.left, y.right):
+                        if isinstance(side, ast.Constant) and isinstance(side.value, (int, float)) and not isinstance(side.value, bool):
+                            fac_ *= side.value if isinstance(y.op, ast.Mult) else (1 / side.value if side is y.right else side.value)
+            return fac_
+
         for a_ in (True, False):
             for eq in (True, False):
                 env = {auto_txt: a_, unparse(A): 3, unparse(B): 3 if eq else 4}
                 if holds(p, env):
-                    table.setdefault((a_, eq), set()).add(fac)
+                    table.setdefault((a_, eq), set()).add(factor(C, env))
     if order_bad is not None:
         res.violation("C01.R5", cp, order_bad[0].node, f"set_patch_pair receives the patch ids as {order_bad[1]} instead of (<pair>.id1, <pair>.id2)", key_extra="set-patch-pair-order")
     elif table == {(True, True): {0.5}, (True, False): {1.0}, (False, True): {1.0}, (False, False): {1.0}}:
@@ -799,7 +827,10 @@ def rule_r5(prog, res) -> None:
     auto_p = next((q for q in it.param_names() if q == "auto"), None)
     if auto_p is None:
         raise AnalysisError("C01.R5: iter_patch_id_pairs has no auto parameter")
-    ipaths = symx.explore(prog, it, inline=symx.inline_private_helpers(prog))
+    from ..inline import inlined as _inl
+
+    it_an = _inl(prog, it)  # generator helpers that the iterator delegates to (`yield from …`) are expanded in place
+    ipaths = symx.explore(prog, it_an, inline=symx.inline_private_helpers(prog))
     cross_yields = []
     diag_yields = 0
     for p in ipaths:
@@ -825,7 +856,7 @@ def rule_r5(prog, res) -> None:
                 if holds(sub, env):
                     t[(a_, r)] = True
     okc = all(t[(False, r)] for r in "<=>") and t[(True, ">")] and not t[(True, "<")] and not t[(True, "=")]
-    rem = any(isinstance(c.func, ast.Attribute) and c.func.attr in ("remove", "discard") for c in calls_in(it))
+    rem = any(isinstance(c.func, ast.Attribute) and c.func.attr in ("remove", "discard") for c in calls_in(it_an))
     if okc and rem and diag_yields:
         res.ok("C01.R5", res.site(it), "cross pairs: all ordered pairs; auto: only j > i, the diagonal is yielded once and removed from the link sets before")
     else:
